@@ -537,7 +537,7 @@ Theorem xrun_streams_init : forall mark wc hw ops x e,
   ran (xbase x) ++ sends_of (pending (xbase x)) = enq (xbase x).
 Proof.
   intros mark wc hw ops x e H.
-  destruct (xrun_streams ops _ _ _ (Inv_InvS _ (init_inv mark wc hw)) H) as [H1 H2 H3]. auto.
+  destruct (xrun_streams ops (xinit mark wc hw) x e (Inv_InvS _ (init_inv mark wc hw)) H) as [H1 H2 H3]. auto.
 Qed.
 
 (* a Base step of the x-machine is the step of the base machine on every field but [registered]:
